@@ -297,9 +297,19 @@ PROPS["C22"] = dict(
                 "memo differing from the sent one is delivered.")
 
 PROPS["C23"] = dict(
-    contracts=[], harness="harness.durable_native:C23", level="exploration", technique="bounded model-based runtime check against FIFO / ordered-set models with a real LMDB store -- stand-in (the property is mostly about the store)",
-    explanation="Bounded stand-in: random sequences (<= 7) of push/pull/extend/update/remove/clear over 4 values with duplicates on durable Durq and Dusq, with store close + reopen and "
-                "resync of a FRESH queue object at random positions; after every operation the cache and the durable copy must equal the model.")
+    contracts=["contracts.c23_durq", "contracts.c23_dusq"], harness="harness.durable_native:C23", level="other",
+    technique="contract-based deductive verification (pyvc) of Durq.push/pull/clear/extend/sync against a FIFO model of the store entry; bounded model-based runtime check "
+              "against FIFO / ordered-set models with a real LMDB store for Dusq, the store itself and reopen",
+    trusted_base=["EXT: the sub-database entry at the queue's key is a FIFO list (add/put append, pop takes the first, rem empties, cnt, getIter in order, pin replaces): "
+                  "this is what C24 checks natively against LMDB; values are known by identity and are all RegDom/IceRegDom instances"],
+    assumptions=["Hold.inject is covered by the bounded tier only", "Durq.extend / Dusq.update: at most 2 new values per call (queue / set size unbounded)",
+                 "Dusq: ordered_set.OrderedSet and the IoSetSuber entry are both taken to implement ONE abstract ordered-set type (ADD/REM/FIRST/LEN/IN with the axioms listed in contracts/c23_dusq.py)"],
+    explanation="PROVED for a queue of ANY length (window encoding): from a state where memory and durable copy hold the same values in the same order, push appends the value at the "
+                "right end of both, pull removes and returns the first value of both (None / IndexError when empty, nothing changed), clear empties both, extend appends all new "
+                "values in order to both -- so the two stay equal and the 'cache/durable mismatch' HierError is unreachable; sync from ARBITRARY contents makes memory exactly the "
+                "durable copy when that is non-empty (what reopen + resync relies on) and otherwise writes memory out; a non-durable queue never touches the store. Dusq.push/pull/remove/clear/update/sync: the SAME abstract ordered-set operation is applied to memory and to the durable copy, results are as stated (push True and gained iff absent, pull = first inserted, remove True iff present), no mismatch error. "
+                "BOUNDED: random sequences (<= 7) of push/pull/extend/update/remove/clear over 4 values with duplicates on durable Durq and Dusq with a real LMDB store, close + "
+                "reopen and resync of a FRESH queue object at random positions; after every operation the cache and the durable copy must equal the model.")
 PROPS["C24"] = dict(
     contracts=[], harness="harness.durable_native:C24", level="exploration", technique="bounded model-based runtime check against dict-of-value / list / ordered-set models with a real LMDB store -- stand-in",
     explanation="Bounded stand-in: random sequences (<= 9) of put/pin/add/get/pop/rem/cnt on Suber, IoSuber, IoSetSuber over adversarial key sets (prefixes of each other, keys containing the "
